@@ -334,7 +334,18 @@ fn directed() -> Vec<History> {
                 Op::Close { sock: 2, server_first: false },
             ],
         },
-        // connected UDP peer filter; established connection vs listener
+        // known finding (no orphan FIN_WAIT2 timeout): the server drops its
+        // accepted stream, the client keeps the connection open
+        History {
+            hosts: h2.clone(),
+            ops: vec![
+                b(1, 0, Proto::Tcp, "0.0.0.0", 5000),
+                Op::TcpConnect { id: 2, host: 1, to: sa("10.0.0.1:5000") },
+                Op::CloseOne { sock: 100_002 },
+                Op::Close { sock: 1, server_first: false },
+                b(3, 0, Proto::Tcp, "0.0.0.0", 5000),
+            ],
+        },
         History {
             hosts: h2.clone(),
             ops: vec![
